@@ -232,6 +232,97 @@ func m8Core(p *an.Prog, r *an.Result) {
 				if !first && !beforePut {
 					okAll = false
 				}
+				// a module-defined reset must reset all of the object
+				for _, rs := range resets {
+					callee := rs.(ssa.CallInstruction).Common().StaticCallee()
+					if callee == nil || !p.InModule(callee) || callee.Blocks == nil || len(callee.Params) == 0 {
+						continue
+					}
+					pt, ok := callee.Params[0].Type().Underlying().(*types.Pointer)
+					if !ok {
+						continue
+					}
+					st, ok := pt.Elem().Underlying().(*types.Struct)
+					if !ok {
+						continue
+					}
+					touched := map[int]bool{}
+					whole := false
+					an.EachInstr(callee, func(in ssa.Instruction) {
+						switch x := in.(type) {
+						case *ssa.Store:
+							if x.Addr == ssa.Value(callee.Params[0]) {
+								whole = true
+							}
+							if fa, ok := x.Addr.(*ssa.FieldAddr); ok && fa.X == ssa.Value(callee.Params[0]) {
+								touched[fa.Field] = true
+							}
+						case *ssa.Call:
+							if len(x.Call.Args) > 0 {
+								if fa, ok := x.Call.Args[0].(*ssa.FieldAddr); ok && fa.X == ssa.Value(callee.Params[0]) && isReset(&x.Call) {
+									touched[fa.Field] = true
+								}
+							}
+						}
+					})
+					for i := 0; i < st.NumFields() && !whole; i++ {
+						if _, isMutex := st.Field(i).Type().(*types.Named); isMutex && strings.HasPrefix(an.TypeName(st.Field(i).Type()), "sync.") {
+							continue
+						}
+						if !touched[i] {
+							r.Bad(name, "reset of the pooled object leaves field "+st.Field(i).Name()+" as it was", rs.Pos(), fmt.Sprintf("%s is used to clean an object taken from a sync.Pool but does not assign %s: what the previous user left there carries over into the next render", an.FuncName(callee), st.Field(i).Name()))
+						}
+					}
+				}
+				// nothing that aliases the pooled object's memory leaves the function
+				for _, o := range others {
+					cv, ok := o.(*ssa.Call)
+					if !ok || len(cv.Call.Args) == 0 {
+						continue
+					}
+					switch cv.Type().Underlying().(type) {
+					case *types.Slice, *types.Pointer, *types.Map:
+					default:
+						continue
+					}
+					escapes := false
+					eseen := map[ssa.Value]bool{}
+					var ew func(v ssa.Value)
+					ew = func(v ssa.Value) {
+						if eseen[v] || v.Referrers() == nil {
+							return
+						}
+						eseen[v] = true
+						for _, u := range *v.Referrers() {
+							switch x := u.(type) {
+							case *ssa.Return:
+								escapes = true
+							case *ssa.Phi:
+								ew(x)
+							case *ssa.MakeInterface:
+								ew(x)
+							case *ssa.ChangeType:
+								ew(x)
+							case *ssa.Slice:
+								ew(x)
+							case *ssa.Store:
+								if _, local := x.Addr.(*ssa.Alloc); !local && x.Val == v {
+									escapes = true
+								} else if al, ok := x.Addr.(*ssa.Alloc); ok && al.Referrers() != nil {
+									for _, l := range *al.Referrers() {
+										if ld, ok := l.(*ssa.UnOp); ok {
+											ew(ld)
+										}
+									}
+								}
+							}
+						}
+					}
+					ew(cv)
+					if escapes && len(puts) > 0 {
+						r.Bad(name, "memory of a pooled object leaves the function", cv.Pos(), fmt.Sprintf("%s returns (or stores) the result of %s on an object that goes back into a sync.Pool: the next user of the pool overwrites what this caller was given", name, an.CallName(&cv.Call)))
+					}
+				}
 			}
 			if okAll {
 				r.OK(name, "pooled object reset before use or before every Put", get.Pos(), "")
@@ -771,4 +862,321 @@ func runF6(p *an.Prog, r *an.Result) {
 		}
 	}
 	r.Floor("value parameters", 7)
+}
+
+// ---------------------------------------------------------------------------
+// B14
+
+func init() {
+	register("B14", "what a loop decoration opens per iteration it closes in the same iteration: after the opening call every way out of the iteration - next item, break, continue, normal end - passes the closing call, except an error return", runB14)
+}
+
+// loopFn: the function in package tags that runs the item loop (renders children and sets variables).
+func loopFn(p *an.Prog) *ssa.Function {
+	var fn *ssa.Function
+	for _, f := range p.Funcs {
+		if f.Pkg != nil && an.RelPkg(f.Pkg.Pkg.Path()) == "tags" && len(callsNamed(f, "(render.Context).RenderChildren")) > 0 && len(callsNamed(f, "(render.Context).Set")) > 0 {
+			fn = f
+		}
+	}
+	return fn
+}
+
+func runB14(p *an.Prog, r *an.Result) {
+	fn := loopFn(p)
+	if fn == nil {
+		r.Bad("-", "loop function not found", token.NoPos, "anchor not resolved")
+		return
+	}
+	name := an.FuncName(fn)
+	// decoration calls: invocations, inside a loop, of a module interface all of whose methods take a writer
+	var calls []*ssa.Call
+	an.EachInstr(fn, func(in ssa.Instruction) {
+		c, ok := in.(*ssa.Call)
+		if !ok || !c.Call.IsInvoke() || !reachesBlock(c.Block(), c.Block()) {
+			return
+		}
+		n := an.NamedOf(c.Call.Value.Type())
+		if n == nil || !an.IsModulePkg(n.Obj().Pkg()) {
+			return
+		}
+		it, ok := n.Underlying().(*types.Interface)
+		if !ok || it.NumMethods() < 2 {
+			return
+		}
+		for i := 0; i < it.NumMethods(); i++ {
+			sig := it.Method(i).Type().(*types.Signature)
+			if sig.Params().Len() == 0 || !isIOWriter(sig.Params().At(0).Type()) {
+				return
+			}
+		}
+		calls = append(calls, c)
+	})
+	r.Counts["decoration calls"] = len(calls)
+	if len(calls) < 2 {
+		r.Bad(name, "loop decoration not found", an.FuncPos(fn), "expected an opening and a closing call of the loop decorator inside the item loop")
+		return
+	}
+	for _, open := range calls {
+		for _, cls := range calls {
+			if open == cls || open.Call.Method == cls.Call.Method || !instrDominates(open, cls) {
+				continue
+			}
+			// the loop: blocks that can get back to the opening call
+			inLoop := func(b *ssa.BasicBlock) bool { return reachesBlock(b, open.Block()) }
+			bad := ""
+			var badPos token.Pos
+			seen := map[*ssa.BasicBlock]bool{}
+			var dfs func(b *ssa.BasicBlock, first bool)
+			dfs = func(b *ssa.BasicBlock, first bool) {
+				if bad != "" || (!first && (seen[b] || b == cls.Block())) {
+					return
+				}
+				if !first {
+					seen[b] = true
+				}
+				start := 0
+				if first {
+					for k, x := range b.Instrs {
+						if x == ssa.Instruction(open) {
+							start = k + 1
+						}
+					}
+					if b == cls.Block() {
+						return // the closing call follows in the same block
+					}
+				}
+				for _, x := range b.Instrs[start:] {
+					if ret, ok := x.(*ssa.Return); ok {
+						res := resultsOf(ret)
+						if len(res) > 0 && an.IsNilConst(res[len(res)-1]) {
+							bad, badPos = "returns success", ret.Pos()
+						}
+						return
+					}
+				}
+				for _, s := range b.Succs {
+					switch {
+					case s == open.Block() || s.Dominates(open.Block()) && inLoop(s):
+						bad, badPos = "goes on to the next iteration", b.Instrs[len(b.Instrs)-1].Pos()
+					case !inLoop(s):
+						// leaving the loop: a return block is examined, anything else is an exit without closing
+						if _, isRet := s.Instrs[len(s.Instrs)-1].(*ssa.Return); isRet {
+							dfs(s, false)
+						} else {
+							bad, badPos = "leaves the loop", b.Instrs[len(b.Instrs)-1].Pos()
+						}
+					default:
+						dfs(s, false)
+					}
+					if bad != "" {
+						return
+					}
+				}
+			}
+			dfs(open.Block(), true)
+			construct := fmt.Sprintf("%s ... %s", open.Call.Method.Name(), cls.Call.Method.Name())
+			if bad == "" {
+				r.OK(name, construct+": closed on every way out of the iteration", cls.Pos(), "no path from the opening call to the next iteration, the loop exit or a successful return avoids the closing call")
+			} else {
+				if !badPos.IsValid() {
+					badPos = cls.Pos()
+				}
+				r.Bad(name, construct+": an iteration can end without the closing call", badPos, fmt.Sprintf("after %s the iteration %s without calling %s: markup opened for this item (a table cell, a row) is never closed", open.Call.Method.Name(), bad, cls.Call.Method.Name()))
+			}
+		}
+	}
+	r.Floor("decoration calls", 2)
+}
+
+// ---------------------------------------------------------------------------
+// M9
+
+func init() {
+	register("M9", "outside the configuration phase nothing mutates a package-level variable or an object shared by all renders through a library method (sync.Map.Store, atomic adds, buffer writes ...); the one accepted form is a memo table whose key is the looked-up input itself - parameters or their fields, never a computed image of them", runM9)
+}
+
+// readOnlyLibMethods: pointer-receiver methods of library types that do not change the receiver
+// in a way one call can observe from another, or that are decided by their own rule.
+var readOnlyLibMethods = map[string]bool{
+	"(*sync.Once).Do":    true, // M6
+	"(*sync.Mutex).Lock": true, "(*sync.Mutex).Unlock": true, "(*sync.Mutex).TryLock": true,
+	"(*sync.RWMutex).Lock": true, "(*sync.RWMutex).Unlock": true, "(*sync.RWMutex).RLock": true, "(*sync.RWMutex).RUnlock": true,
+	"(*sync.Pool).Get": true, "(*sync.Pool).Put": true, // M8
+	"(*sync.Map).Load": true, "(*sync.Map).Range": true,
+	"(*sync.WaitGroup).Add": true, "(*sync.WaitGroup).Done": true, "(*sync.WaitGroup).Wait": true,
+	"(*regexp.Regexp).FindAllStringSubmatchIndex": true, "(*regexp.Regexp).FindStringSubmatch": true, "(*regexp.Regexp).MatchString": true,
+	"(*regexp.Regexp).ReplaceAllString": true, "(*regexp.Regexp).FindAllString": true, "(*regexp.Regexp).Split": true, "(*regexp.Regexp).String": true,
+	"(*regexp.Regexp).ReplaceAllStringFunc": true, "(*regexp.Regexp).FindStringIndex": true, "(*regexp.Regexp).FindString": true,
+	"(*regexp.Regexp).FindAllStringSubmatch": true, "(*regexp.Regexp).FindStringSubmatchIndex": true, "(*regexp.Regexp).SubexpNames": true,
+	"(*regexp.Regexp).NumSubexp": true, "(*regexp.Regexp).ReplaceAllLiteralString": true, "(*regexp.Regexp).FindAllStringIndex": true,
+	"(*strings.Replacer).Replace": true, "(*strings.Replacer).WriteString": true,
+	"(*time.Location).String": true,
+}
+
+func m9Core(p *an.Prog, r *an.Result) {
+	shared := sharedWithCaptures(p)
+	for _, fn := range p.Funcs {
+		if isMainPkg(fn) || an.IsInit(fn) || isConfigPhase(fn) {
+			continue
+		}
+		name := an.FuncName(fn)
+		an.EachCall(fn, func(ci ssa.CallInstruction) {
+			c := ci.Common()
+			callee := c.StaticCallee()
+			if callee == nil || callee.Pkg == nil || an.IsModulePkg(callee.Pkg.Pkg) || callee.Signature.Recv() == nil || len(c.Args) == 0 {
+				return
+			}
+			if _, isPtr := callee.Signature.Recv().Type().Underlying().(*types.Pointer); !isPtr {
+				return
+			}
+			cn := an.CallName(c)
+			if readOnlyLibMethods[cn] || strings.Contains(cn, ").Load") && strings.HasPrefix(cn, "(*sync/atomic.") {
+				return
+			}
+			recv := c.Args[0]
+			// where does the receiver live?
+			where := ""
+			root := recv
+			for {
+				switch x := root.(type) {
+				case *ssa.FieldAddr:
+					root = x.X
+					continue
+				case *ssa.IndexAddr:
+					root = x.X
+					continue
+				}
+				break
+			}
+			if g, ok := root.(*ssa.Global); ok {
+				where = "the package-level variable " + g.Name()
+			} else if u, ok := root.(*ssa.UnOp); ok && u.Op == token.MUL {
+				if g, ok := u.X.(*ssa.Global); ok {
+					where = "the package-level variable " + g.Name()
+				}
+			}
+			if where == "" {
+				{
+					info := ownersOf(recv, false)
+					fresh := len(info.bases) > 0
+					for _, b := range info.bases {
+						if !isFresh(p, b, 0) {
+							fresh = false
+						}
+					}
+					if u, ok := recv.(*ssa.UnOp); ok && u.Op == token.MUL {
+						// a pointer read out of a struct: the pointee belongs to every struct on the way,
+						// however local the copy of the struct it was read from
+						info = ownersOf(u.X, true)
+						fresh = false
+					}
+					if !fresh {
+						for _, n := range info.shared {
+							if shared[n] {
+								where = "a " + an.TypeName(n) + " shared by all renders"
+								break
+							}
+						}
+					}
+				}
+			}
+			if where == "" {
+				return
+			}
+			r.Counts["library mutations of shared state"]++
+			construct := cn + " on " + describe(p, recv)
+			// a memo table keyed by the input itself
+			if cn == "(*sync.Map).Store" || cn == "(*sync.Map).LoadOrStore" {
+				if why := identityKey(c.Args[1], 0); why == "" {
+					r.OK(name, construct, ci.Pos(), "memo table whose key is made of the function's own inputs (no computed image): two different inputs cannot share an entry")
+					return
+				} else {
+					r.Bad(name, construct, ci.Pos(), fmt.Sprintf("%s stores into %s under a key that %s: different inputs can map to one entry, and then the result of one call depends on which other call came first", name, where, why))
+					return
+				}
+			}
+			r.Bad(name, construct, ci.Pos(), fmt.Sprintf("%s changes %s at parse or render time through %s: state that outlives the call makes renders depend on each other", name, where, cn))
+		})
+	}
+}
+
+// identityKey: "" if v is built only from parameters, their fields, constants and composites of
+// those; otherwise what makes it a computed image.
+func identityKey(v ssa.Value, depth int) string {
+	if depth > 6 {
+		return "is too deeply nested to follow"
+	}
+	switch x := v.(type) {
+	case *ssa.Parameter, *ssa.Const, *ssa.FreeVar:
+		return ""
+	case *ssa.MakeInterface:
+		return identityKey(x.X, depth+1)
+	case *ssa.ChangeType:
+		return identityKey(x.X, depth+1)
+	case *ssa.Convert:
+		return identityKey(x.X, depth+1)
+	case *ssa.Field:
+		return identityKey(x.X, depth+1)
+	case *ssa.FieldAddr:
+		return identityKey(x.X, depth+1)
+	case *ssa.IndexAddr:
+		if w := identityKey(x.X, depth+1); w != "" {
+			return w
+		}
+		return identityKey(x.Index, depth+1)
+	case *ssa.Phi:
+		for _, e := range x.Edges {
+			if w := identityKey(e, depth+1); w != "" {
+				return w
+			}
+		}
+		return ""
+	case *ssa.UnOp:
+		if x.Op == token.MUL {
+			if al, ok := x.X.(*ssa.Alloc); ok {
+				// a composite literal or a spilled parameter: everything stored into it
+				var visit func(a ssa.Value) string
+				visit = func(a ssa.Value) string {
+					if a.Referrers() == nil {
+						return ""
+					}
+					for _, u := range *a.Referrers() {
+						switch y := u.(type) {
+						case *ssa.Store:
+							if y.Addr == a {
+								if w := identityKey(y.Val, depth+1); w != "" {
+									return w
+								}
+							}
+						case *ssa.FieldAddr:
+							if w := visit(y); w != "" {
+								return w
+							}
+						case *ssa.IndexAddr:
+							if w := visit(y); w != "" {
+								return w
+							}
+						}
+					}
+					return ""
+				}
+				return visit(al)
+			}
+			return identityKey(x.X, depth+1)
+		}
+	case *ssa.Call:
+		return "is computed by " + nonEmpty(an.CallName(&x.Call), "a call")
+	case *ssa.BinOp:
+		return "is computed with " + x.Op.String()
+	}
+	return fmt.Sprintf("is a %T", v)
+}
+
+func runM9(p *an.Prog, r *an.Result) {
+	m9Core(p, r)
+	checkFixture(r, m9Core, []string{"M9BadKey", "M9Counter"}, []string{"M9GoodKey"})
+	if r.Counts["library mutations of shared state"] == 0 {
+		r.Triv("-", "no library-container mutation of shared state outside the configuration phase", token.NoPos, "no memo table, counter or shared buffer is written at parse or render time")
+	}
 }
